@@ -23,6 +23,9 @@ WORKER = os.path.join(HERE, "worker.py")
 SCRATCH = os.environ.get("VERIF_SCRATCH", "/tmp/simcheck-scratch")  # re-creatable build/overlay cache, outside /repo and /verif
 
 
+DIGEST_CAP = 4_000_000  # distinct-trace sets stop growing here (memory); the evidence then reports a lower bound
+
+
 class HarnessError(Exception):
     pass
 
@@ -252,8 +255,9 @@ def check(prop: str, tier: str, seed: int, runs: int | None, budget_s: float | N
                     agg["harness"].append(r)
                     continue
                 agg["evals"] += 1
-                agg["digests"].add(r["digest"])
-                if r["nt"]:
+                if len(agg["digests"]) < DIGEST_CAP:
+                    agg["digests"].add(r["digest"])
+                if r["nt"] and len(agg["digests_nt"]) < DIGEST_CAP:
                     agg["digests_nt"].add(r["digest"])
                 for k, v in r["faults"].items():
                     agg["faults"][k] = agg["faults"].get(k, 0) + v
@@ -336,6 +340,7 @@ def check(prop: str, tier: str, seed: int, runs: int | None, budget_s: float | N
                 "evaluations": agg["evals"],
                 "distinct_nontrivial": len(agg["digests_nt"]),
                 "distinct_traces": len(agg["digests"]),
+                "distinct_counts_are_lower_bounds": len(agg["digests"]) >= DIGEST_CAP,
                 "rule": mod.RULE,
                 "samples": samples[:3],
                 "runs_per_hour": round(agg["evals"] / max(wall, 1e-9) * 3600),
